@@ -118,6 +118,10 @@ class C01(Prop):
                         f"C01/tree/tagnum/{kind_of(df[1])}->{kind_of(df[2])}/{mode}")
                 col.violation("treeA", desc, dict(case, opts=[[w, sem]]), {"output": out[:300], "path": list(df[0])})
 
+    def _check_text(self, case, col):
+        """An explicit document (witnesses of repaired defects)."""
+        self.judge_document(case["text"], case.get("feats", []), "text", case["opts"], case, col)
+
     # ------------------------------------------------------------------ documents
     def _check_doc(self, case, col):
         d = gen_doc(case["seed"], case["profile"], layout_seed=case.get("layout_seed"))
